@@ -41,6 +41,20 @@ MODS = {
 }
 
 
+# Variant E1S ("shimmed collections"): the same byte-for-byte copy, except that ONE import in lib.rs is
+# redirected - `std::collections::{HashMap, VecDeque}` become list-based shims
+# (contracts/support/hashmap_shim.rs) - because std's SipHash table does not terminate under CBMC
+# (3 integers through Message::from_integers: > 300 s).  Every other file is the real file.
+MODS_S = {
+    "lib.rs": "lib_contracts.rs",
+    "runestone.rs": "runestone_contracts.rs",
+    "runestone/message.rs": "message_contracts.rs",
+    "runestone/tag.rs": "tag_contracts.rs",
+}
+LIB_IMPORT_REAL = "    collections::{HashMap, VecDeque},\n"
+LIB_IMPORT_SHIM = ""
+
+
 def sha(path):
     return hashlib.sha256(open(path, "rb").read()).hexdigest()
 
@@ -54,7 +68,7 @@ def dep_spec(v):
     return "{ " + ", ".join(parts) + " }"
 
 
-def build(dest, extra_features=None):
+def build(dest, extra_features=None, variant="e1"):
     src = os.path.join(REPO, "crates/ordinals")
     root = tomllib.load(open(os.path.join(REPO, "Cargo.toml"), "rb"))
     crate = tomllib.load(open(os.path.join(src, "Cargo.toml"), "rb"))
@@ -71,8 +85,19 @@ def build(dest, extra_features=None):
             p = os.path.join(dp, fn)
             hashes[os.path.relpath(p, REPO)] = sha(p)
     appended = []
-    for rel, contract in MODS.items():
-        cpath = os.path.join(VERIF, "contracts/ordinals", contract)
+    cdir = "contracts/ordinals" if variant == "e1" else "contracts/ordinals_s"
+    if variant == "e1s":
+        lib = os.path.join(dsrc, "lib.rs")
+        text = open(lib).read()
+        if LIB_IMPORT_REAL not in text:
+            import extract
+            raise extract.AnchorLost("lib.rs: the `collections::{HashMap, VecDeque}` import line was not found")
+        text = text.replace(LIB_IMPORT_REAL, LIB_IMPORT_SHIM, 1)
+        text += "\n#[path = \"" + os.path.join(VERIF, "contracts/support/hashmap_shim.rs") + "\"]\nmod hashmap_shim;\nuse hashmap_shim::{HashMap, VecDeque};\n"
+        open(lib, "w").write(text)
+        appended.append("lib.rs (import of std::collections::{HashMap, VecDeque} redirected to contracts/support/hashmap_shim.rs)")
+    for rel, contract in (MODS if variant == "e1" else MODS_S).items():
+        cpath = os.path.join(VERIF, cdir, contract)
         target = os.path.join(dsrc, rel)
         if not os.path.exists(cpath) or not os.path.exists(target):
             continue
